@@ -40,11 +40,14 @@ package handshake
 //@   modifies nothing
 //@   sets hsClosed = true
 //@ func (*github.com/anyproto/any-sync/net/secureservice/handshake/handshakeproto.Credentials).UnmarshalVT
-//@   modifies object arg0 kinds uint8
+//@   modifies object arg0
+//@   modifies kinds uint8
 //@ func (*github.com/anyproto/any-sync/net/secureservice/handshake/handshakeproto.Ack).UnmarshalVT
-//@   modifies object arg0 kinds uint8
+//@   modifies object arg0
+//@   modifies kinds uint8
 //@ func (*github.com/anyproto/any-sync/net/secureservice/handshake/handshakeproto.Proto).UnmarshalVT
-//@   modifies object arg0 kinds uint8 uint32
+//@   modifies object arg0
+//@   modifies kinds uint8 uint32
 //@ func (*github.com/anyproto/any-sync/net/secureservice/handshake/handshakeproto.Credentials).SizeVT
 //@   pure
 //@   ensures result >= 0 && result <= 2147483647
@@ -63,7 +66,7 @@ package handshake
 //@   requires [needs_4_bytes] len(arg1) >= 4
 //@   ensures 0 <= result && result <= 4294967295
 //@ func (littleEndian).PutUint32
-//@   modifies kinds uint8
+//@   modifies object arg1 kinds uint8
 //@   requires [needs_4_bytes] len(arg1) >= 4
 //@ package github.com/anyproto/any-sync/net/secureservice/handshake
 
